@@ -28,7 +28,7 @@ static std::vector<Decl> declarations()
     std::vector<Decl> ds;
     {
         Decl D;
-        D.items = { Item::opt("opt", "o").with_env("VP_O"), Item::multi("multi", "m").with_def("dm"), Item::tog("tog", "t", true),
+        D.items = { Item::opt("opt", "o").with_env("VP_O"), Item::multi("multi", "m").with_def("dm").with_env("VP_M"), Item::tog("tog", "t", true),
                     Item::tog("ugg", "u") };
         D.accepted = 2;
         ds.push_back(D);
@@ -54,6 +54,13 @@ static std::vector<Decl> declarations()
         D.greedy = true;
         ds.push_back(D);
     }
+    {
+        // a one-character long name that equals another option's short name: `--x` and `-x` are different options
+        Decl D;
+        D.items = { Item::opt("x", ""), Item::opt("xmax", "x"), Item::multi("multi", "m") };
+        D.accepted = 1;
+        ds.push_back(D);
+    }
     return ds;
 }
 
@@ -76,13 +83,16 @@ static std::vector<Event> events()
         { "--", "a", "b", "c" },   // fails (where positionals are limited) after the switch to positional-only mode
         { "p", "--zz" },           // fails after a positional has been collected (greedy: after the mode switch)
         { "--", "--opt=z" },
+        { "-x", "100" },
+        { "--x", "cycles" },
+        std::vector<std::string>(1100, "--multi=v"), // more values than any small buffer or capacity threshold
     };
     std::vector<Env> es = { {}, { { "VP_O", "e" }, { "VP_M", "p;q" }, { "VP_T", "TRUE" } }, { { "VP_T", "maybe" }, { "VP_M", "r" } } };
     std::vector<Event> out;
     for (auto& e : es)
         for (auto& v : vs)
             out.push_back({ v, e });
-    for (int d = 0; d < 4; d++)
+    for (int d = 0; d < static_cast<int>(declarations().size()); d++)
     {
         Event r;
         r.replace = d;
@@ -272,9 +282,18 @@ int main(int argc, char** argv)
     auto sh = sharded(a, "C14");
     sh.walk = [&](mc::Ctx& ctx) {
         // phase 1: every history up to depth h, no de-duplication
+        // (at depth 4 the events are those without an environment: the full alphabet is complete up to depth 3)
+        std::vector<size_t> all_ix, core_ix;
+        for (size_t k = 0; k < evs.size(); k++)
+        {
+            all_ix.push_back(k);
+            if (evs[k].env.empty() && evs[k].argv.size() < 100)
+                core_ix.push_back(k);
+        }
         for (auto& D : decls)
             for (int len = 1; len <= h && !ctx.stop(); len++)
             {
+                const std::vector<size_t>& pool = len >= 4 ? core_ix : all_ix;
                 std::vector<size_t> ix(len, 0);
                 for (;;)
                 {
@@ -282,7 +301,7 @@ int main(int argc, char** argv)
                     auto make = [&] {
                         std::vector<Event> hist;
                         for (auto k : ix)
-                            hist.push_back(evs[k]);
+                            hist.push_back(evs[pool[k]]);
                         return hist;
                     };
                     ctx.each(
@@ -304,7 +323,7 @@ int main(int argc, char** argv)
                                 rep.sample(history_json(D, hist));
                         });
                     int p = len - 1;
-                    while (p >= 0 && ++ix[p] == evs.size())
+                    while (p >= 0 && ++ix[p] == pool.size())
                         ix[p--] = 0;
                     if (p < 0)
                         break;
@@ -373,8 +392,9 @@ int main(int argc, char** argv)
     rep.counters["bound_bfs_depth"] = bfs_depth;
     rep.counters["events"] = evs.size();
     rep.counters["declarations"] = decls.size();
-    rep.notes["rule"] = "4 declarations x every sequence of <= h events (16 argument vectors x 3 environments, succeeding and "
-                        "failing) on one parser object, each outcome compared with a fresh parser; then BFS de-duplicated on the "
+    rep.notes["rule"] = "5 declarations x every sequence of <= min(h,3) events over the full alphabet (19 argument vectors x 3 environments, 8 vectors "
+                        "through parse(std::vector<user_input>), replacement by each declaration; succeeding and failing) and of 4 events over the "
+                        "events without an environment, on one parser object, each outcome compared with a fresh parser; then BFS de-duplicated on the "
                         "public state of the option objects; non-trivial = distinct histories of length >= 2";
     mc::write_out(a, rep);
     return 0;
